@@ -161,6 +161,14 @@ class Context:
             if x['status'] == 'SUCCESS':
                 self.obligations.append(Obligation(name, 'K', 'discharged', clause=clause, unit=h['name'], time_s=x['time_s'], n_checks=nchk,
                                                    extra={'contract_for': h.get('for', ''), 'unwind': h.get('unwind'), 'exhaustive': True}))
+            elif x['status'] == 'FAILED' and h.get('assembled'):
+                # The harness assembles private state by hand (no public call sequence reaches it inside CBMC's budget).  A failure
+                # from such a state is only a violation if the state is one the real code can be in: a change that adds a field
+                # with its own invariant (a cache, a counter) makes the assembled state invalid.  Reported as undecided; the
+                # bounded units drive the same functions through the public API and raise the alarm if the failure is real.
+                fails = [c for c in x['failed'] if c['status'] == 'FAILURE']
+                detail = 'failure from a hand-assembled private state (not confirmed through the public API): ' + '; '.join(f'{c["desc"]} @ {c["loc"]}' for c in fails[:6])
+                self.obligations.append(Obligation(name, 'K', 'undecided', clause=clause, detail=detail, unit=h['name'], time_s=x['time_s'], n_checks=nchk, n_failed=len(fails)))
             elif x['status'] == 'FAILED':
                 fails = [c for c in x['failed'] if c['status'] == 'FAILURE']
                 detail = '; '.join(f'{c["desc"]} @ {c["loc"]}' for c in fails[:6])
